@@ -40,6 +40,10 @@ func drawC01(t *rapid.T) polCase {
 		c.Prev = "copy"
 	case 5, 6:
 		c.Prev = "then-other"
+	case 7:
+		if n, ok := foreignOnlyName(t, arch); ok && len(p.Groups) > 0 {
+			c.Foreign = n
+		}
 	}
 	return c
 }
@@ -64,7 +68,18 @@ func checkC01(raw json.RawMessage) (ev.Result, error) {
 		return ev.Result{}, err
 	}
 	p := &c.Policy
-	cp, cerr, pan := compilePolicyAfter(p, c.Prev)
+	toCompile := p
+	if c.Foreign != "" && len(p.Groups) > 0 {
+		if _, known := model.Number(p.Arch, c.Foreign); known || spec.ArchInfo(p.Arch).SyscallNames[c.Foreign] != 0 {
+			return ev.Result{}, ev.Inconclusivef("%q is a syscall of %s", c.Foreign, p.Arch)
+		}
+		q := *p
+		q.Groups = append([]spec.Group(nil), p.Groups...)
+		gi := int(c.Seed % uint64(len(q.Groups)))
+		q.Groups[gi].Names = append(append([]string(nil), q.Groups[gi].Names...), c.Foreign)
+		toCompile = &q
+	}
+	cp, cerr, pan := compilePolicyAfter(toCompile, c.Prev)
 	if pan != nil {
 		return ev.Result{}, fmt.Errorf("Assemble panicked: %v", pan)
 	}
@@ -78,6 +93,9 @@ func checkC01(raw json.RawMessage) (ev.Result, error) {
 	}
 	st := &evalStats{classes: map[string]bool{}}
 	policyShape(p, cp, st)
+	if c.Foreign != "" {
+		st.class("accepted-with-a-name-of-another-architecture")
+	}
 	switch {
 	case c.Prev == "edited":
 		st.class("value-held-another-policy-before")
